@@ -11,6 +11,7 @@ import json
 import math
 
 from vlib import core, evqe, rnglog
+from vlib import translate
 from vlib.core import g_bool, g_list, g_opt, g_z
 
 IMPORTS = "From QV Require Import Evqe.RandLayer Evqe.C20Check."
@@ -372,6 +373,7 @@ def exhaustive_paths(ctx, max_n, max_rejects):
 
 # ------------------------------------------------------------------ run / replay
 def run(ctx):
+    translate.check_link(ctx, "C20")  # regenerate Gallina from /repo's current source; link lemmas coq/link/C20Link.v
     ctx.rule = ("random_layer: n from 1..12 (weight on 1-3) x previous layer none / all identities / all rotations / random valid, seeds random; every (n<=2, previous layer) x 4 seeds; "
                 "random_individual n 1..12 x 1..6 layers; add_random_layers on random valid individuals x 1..4 appended layers; random_population 0..5 individuals; argument edge cases; "
                 "exhaustive decision paths of random_layer through a scripted generator (quick n<=3 with <=2 rejected draws per path, thorough n<=4 with <=3); distinct = distinct (arguments, seed or script); non-trivial = at least one random decision drawn")
@@ -417,6 +419,8 @@ def run(ctx):
 
 
 def replay(ctx, payload):
+    if translate.is_link_replay(payload) and not payload.get("failing_input"):
+        return translate.replay(ctx, payload, "C20")  # a replay file written for a broken translation tie
     c = payload.get("case") or payload.get("failing_input")
     g = do_case(ctx, c, script=c.get("script"))
     for v in ctx.violations:
